@@ -20,13 +20,33 @@ pub fn is_modifier(k: KeyCode) -> bool {
 }
 
 pub fn all_key_codes() -> Vec<KeyCode> {
-  let mut out = Vec::new();
-  for i in 0u32..=0xffff {
-    if let Some(k) = <KeyCode as FromPrimitive>::from_u32(i) {
-      out.push(k);
+  all_codes().clone()
+}
+
+pub fn all_codes() -> &'static Vec<KeyCode> {
+  static ALL: std::sync::OnceLock<Vec<KeyCode>> = std::sync::OnceLock::new();
+  ALL.get_or_init(|| {
+    let mut out = Vec::new();
+    for i in 0u32..=0xffff {
+      if let Some(k) = <KeyCode as FromPrimitive>::from_u32(i) {
+        out.push(k);
+      }
     }
-  }
-  out
+    out
+  })
+}
+
+pub fn nonmod_codes() -> &'static Vec<KeyCode> {
+  static NM: std::sync::OnceLock<Vec<KeyCode>> = std::sync::OnceLock::new();
+  NM.get_or_init(|| all_codes().iter().cloned().filter(|k| !is_modifier(*k)).collect())
+}
+
+pub fn code_of(k: KeyCode) -> u32 {
+  k as i32 as u32
+}
+
+pub fn key_with_code(c: u32) -> Option<KeyCode> {
+  <KeyCode as FromPrimitive>::from_u32(c)
 }
 
 pub fn key_name(k: KeyCode) -> String {
